@@ -1,6 +1,6 @@
 (* C15 — keep-alive timer requests are consistent and complete.  Statements only; proofs are in
-   Conn/Timers.v, Conn/RearmInv.v and Conn/RearmInv2.v.  Nothing else may be added to this file. *)
-From MQ Require Import Base.Prelude Conn.Types Conn.ConnRecord Conn.Step Conn.Run Corr.ConnTrace Conn.Timers Conn.RearmInv Conn.RearmInv2.
+   Conn/Timers.v, Conn/RearmInv.v, Conn/RearmInv2.v and Conn/Expiry.v.  Nothing else may be added to this file. *)
+From MQ Require Import Base.Prelude Conn.Types Conn.ConnRecord Conn.Step Conn.Run Corr.ConnTrace Conn.Timers Conn.RearmInv Conn.RearmInv2 Conn.Expiry.
 
 (* For EVERY state and API call: replaying the timer requests of the returned event list over the
    connection's timer flags before the call (after clearing the flag of a timer whose expiry is
@@ -74,6 +74,50 @@ Theorem C15_step_rearms : forall g c o,
   end.
 Proof. exact step_rearms. Qed.
 Print Assumptions C15_step_rearms.
+
+(* WHAT AN EXPIRY DOES, every state (Conn/Expiry.v).  PINGREQ-send timer on an established connection: a PINGREQ
+   is requested and, when a response timeout is configured, the PINGRESP timer is armed with it. *)
+Theorem C15_pingreq_send_expiry : forall c,
+  status_eqb (c_status c) Connected = true -> c_version c <> VUndet ->
+  (c_version c = V50 -> 2 <= c_mps_send c) ->
+  match do_timer c TPingreqSend with
+  | Ok (c', e) =>
+      In (ESend (pingreq_pkt (c_version c)) None) e /\
+      (c_pingresp_recv_to c <> 0 -> In (ETimerReset TPingrespRecv (c_pingresp_recv_to c)) e /\ c_t_resp c' = true)
+  | Panic _ => False
+  end.
+Proof. exact pingreq_send_expiry. Qed.
+Print Assumptions C15_pingreq_send_expiry.
+
+(* PINGREQ-receive (server) and PINGRESP-receive (client) timers: the connection is given up — v3.1.1: exactly a
+   close request; v5.0 while established: DISCONNECT 'Keep Alive timeout' (0x8D, if it fits the peer's Maximum
+   Packet Size), a close request, status Disconnected *)
+Theorem C15_keepalive_expiry_v311 : forall c k, k <> TPingreqSend -> c_version c = V311 ->
+  match do_timer c k with Ok (c', e) => e = [EClose] | Panic _ => False end.
+Proof. exact keepalive_expiry_v311. Qed.
+Print Assumptions C15_keepalive_expiry_v311.
+Theorem C15_keepalive_expiry_v5 : forall c k, k <> TPingreqSend -> c_version c = V50 -> status_eqb (c_status c) Connected = true ->
+  match do_timer c k with
+  | Ok (c', e) => In EClose e /\ c_status c' = Disconnected /\
+                  (size_ok c (disconnect_v5 141) = true -> In (ESend (disconnect_v5 141) None) e)
+  | Panic _ => False
+  end.
+Proof. exact keepalive_expiry_v5. Qed.
+Print Assumptions C15_keepalive_expiry_v5.
+
+(* THE SERVER-SIDE TIMER IS RE-ARMED BY EVERY ACCEPTED PACKET: for every packet kind other than CONNACK, PINGRESP
+   and DISCONNECT (which ends the connection), every state, both versions: when the received packet is notified
+   and a receive timeout is in force (1.5 x the client's keep-alive), the call requests a reset of the
+   PINGREQ-receive timer with that timeout and the timer is armed afterwards *)
+Theorem C15_accepted_packet_rearms : forall g c v t pr,
+  t <> 2 -> t <> 13 -> t <> 14 -> (t = 1 -> exists p, pr = PROk p) ->
+  match dispatch_recv g c v t pr with
+  | Ok (c', e) => notifies e <> [] -> c_pingreq_recv_to c' <> 0 ->
+                  In (ETimerReset TPingreqRecv (c_pingreq_recv_to c')) e /\ c_t_recv c' = true
+  | Panic _ => True
+  end.
+Proof. exact accepted_packet_rearms. Qed.
+Print Assumptions C15_accepted_packet_rearms.
 
 (* [rearmed] is not vacuous: it rejects a client send that is not followed by the reset, and a reset
    with the wrong interval; it accepts the reset after the last send *)
